@@ -40,7 +40,9 @@ RECURSIVE Occ(_, _)
 Occ(g, nm) == (IF g.k = "custom" /\ g.n = nm THEN 1 ELSE 0)
               + (IF "c" \in DOMAIN g THEN LET RECURSIVE Sum(_) Sum(i) == IF i > Len(g.c) THEN 0 ELSE Occ(g.c[i], nm) + Sum(i + 1) IN Sum(1) ELSE 0)
 CountOp(log, nm, op) == Cardinality({i \in 1..Len(log) : log[i].type = nm /\ log[i].op = op})
-CustomNames == {"CEmail", "CCelsius", "CTags", "CPoint"}
+CustomNames == {"CEmail", "CCelsius", "CTags", "CPoint", "CObjID", "COpt"}
+\* COpt's codec omits some values by itself (Omit), so its Write / Read calls are not one per occurrence
+Counted == CustomNames \ {"COpt"}
 \* value equality with custom markers kept: structural equality of the projections, nil vs empty collections identified
 RECURSIVE Strip(_)
 Strip(g) == IF "c" \in DOMAIN g THEN [k |-> g.k, n |-> (IF "n" \in DOMAIN g THEN g.n ELSE ""), b |-> (IF "b" \in DOMAIN g THEN g.b ELSE <<>>), c |-> [i \in 1..Len(g.c) |-> Strip(g.c[i])]]
@@ -51,8 +53,10 @@ FailsReg(e) ==
            registered == {nm \in CustomNames : nm \in DOMAIN e.latest} IN
        Chk(e.schema = exp, "generated schema does not carry the (latest) registered schema at exactly the occurrences of the registered type")
        \o Chk(\A i \in 1..Len(e.log) : e.log[i].type \in registered /\ e.log[i].id = e.latest[e.log[i].type], "a codec other than the most recently registered one was used")
-       \o Chk(\A nm \in registered : CountOp(e.log, nm, "write") = Occ(e.value, nm), "the registered codec did not write every occurrence of its type (or wrote something else)")
-       \o Chk(\A nm \in registered : CountOp(e.log, nm, "read") = Occ(e.value, nm), "the registered codec did not read every occurrence of its type")
+       \o Chk(\A nm \in registered \cap Counted : CountOp(e.log, nm, "write") = Occ(e.value, nm), "the registered codec did not write every occurrence of its type (or wrote something else)")
+       \o Chk(\A nm \in registered \cap Counted : CountOp(e.log, nm, "read") = Occ(e.value, nm), "the registered codec did not read every occurrence of its type")
+       \o Chk(\A nm \in registered \ Counted : CountOp(e.log, nm, "read") = CountOp(e.log, nm, "write") /\ CountOp(e.log, nm, "write") <= Occ(e.value, nm),
+               "the registered codec of a self-omitting type did not read what it wrote")
        \o Chk(\A nm \in CustomNames \ registered : CountOp(e.log, nm, "write") = 0, "a codec ran for an unregistered type")
        \o Chk(Strip(e.rvalue) = Strip(e.value), "value did not round-trip through the registered codec")
        \o Chk(e.left = 0, "bytes left over")
